@@ -132,7 +132,7 @@ CauseOf(twin, post, f, l7, l7m, l26, fs) ==
   ELSE IF twin.rounds[f].status = StatusOpen /\ post.rounds[f].status = StatusClosed THEN {"OPEN_ROUND_CLOSED"}
   ELSE IF twin.rounds[f] # post.rounds[f] THEN {"ROUND_DIFFERS"}
   ELSE IF twin.rounds[f].status = StatusOpen /\ WorkerOr0(twin, f) # WorkerOr0(post, f) THEN
-     IF \E v \in VALS : Cardinality(Replayed(post, f, v)) >= 2 THEN {"SECOND_MESSAGE_DROPPED"}
+     IF \E v \in DOMAIN post.c.pw : Cardinality(Replayed(post, f, v)) >= 2 THEN {"SECOND_MESSAGE_DROPPED"}
      ELSE IF f \in l7m THEN {"REJECTED_TX_REPORTS_LOST"}
      ELSE IF f \in l26 THEN {"REPLAY_LOG_PRUNED_EARLY"}
      ELSE IF NotReplayed(post, f) # {} THEN {"REPLAY_WINDOW_TOO_SHORT"}
